@@ -101,13 +101,15 @@ PROPS = {
                 "session) with rapid; each case runs in a fresh world with two observers; "
                 "oracle: effect observed only if its privileges are held; all held => effect observed and no error; any missing => error "
                 "reply, file/config snapshot unchanged, observers and victim receive nothing, requester's transfer list unchanged; "
-                "non-trivial = requester bitmap is neither empty nor all 40 privileges; distinct = hash(cell, bitmap, path)",
+                "non-trivial = requester bitmap is neither empty nor all 40 privileges; distinct = hash(cell, bitmap, path); TestC05GhostCategory: a requester that may post articles but create neither categories nor bundles posts to a news path that does not exist (top level, inside a bundle, inside a category, depth 3): no grouping of that name may exist afterwards in the listing or in the news file, whatever the reply",
         "assumptions": ["upload / drop-box target folders are named unambiguously (Uploads, Drop Box, other)",
                         "the privilege table in harness/props/c05_test.go is the oracle (written from the protocol privilege list)"],
         "quick": {"runs": [{"test": "^TestC05Matrix$", "shards": 16, "timeout": 600},
-                           {"test": "^TestC05$", "shards": 16, "checks": 150, "timeout": 600}]},
+                           {"test": "^TestC05$", "shards": 15, "checks": 160, "timeout": 600},
+                           {"test": "^TestC05GhostCategory$", "shards": 1, "checks": 150, "timeout": 600}]},
         "thorough": {"runs": [{"test": "^TestC05Matrix$", "shards": 16, "timeout": 1200},
-                              {"test": "^TestC05$", "shards": 16, "checks": 6000, "timeout": 3400}]},
+                              {"test": "^TestC05$", "shards": 15, "checks": 6400, "timeout": 3400},
+                              {"test": "^TestC05GhostCategory$", "shards": 1, "checks": 6000, "timeout": 3400}]},
     },
     "C06": {
         "title": "No privilege amplification; protected users cannot be kicked",
